@@ -358,3 +358,7 @@ def run(run, tier, seed, replay=None):
     report(run, "unsup", bad, designs, outs)
     run.sample(dict(stream="unsupported", design=designs[0]))
     run.coverage["traces_validated_against_impl"] = nvalid + len(designs)
+    # C16E: the package-level flatten model (coq Model/C16EPkg.v:flatten_pkg) against the implementation on the designs of the four
+    # streams above and on a new stream of bus hierarchies with slices / concatenations at instance connections (append-only hook)
+    from . import c16e
+    c16e.run_tie(run, tier, seed)
